@@ -17,7 +17,7 @@ def generate(rng, tier):
     cases = []
     thorough = tier == "thorough"
     specs = specs_pool(rng, 40 if thorough else 10)
-    for k in range(8000 if thorough else 1200):
+    for k in range(8000 * TH if thorough else 1200):
         sp, data, kind, _ = gen_stream(rng, specs, big=(k % 11 == 0))
         allow = rng.choice([0, 0, 1, 2, 3, 4, 5, 6, 7, 7])
         buf = rand_buffered(rng, sp, 0.4)
